@@ -116,7 +116,11 @@ def prim_cases(draw):
         base = datetime(1899, 12, 30) + timedelta(seconds=draw(st.integers(0, 8110 * 10 ** 6)),
                                                   microseconds=draw(st.integers(0, 999999)))
         tz = draw(st.one_of(st.none(), st.integers(-14 * 60, 14 * 60)))
-        return {'code': 'DTIME', 'dt': {'$dt': base.isoformat(), 'tz': tz}}
+        c = {'code': 'DTIME', 'dt': {'$dt': base.isoformat(), 'tz': tz}}
+        if tz is None:
+            # a naive date-time means local time: exercise other process time zones than UTC too
+            c['tz_env'] = draw(st.sampled_from(['UTC', 'Asia/Kolkata', 'America/St_Johns', 'Pacific/Chatham']))
+        return c
     if kind in ('obname', 'objref'):
         c = {'code': kind.upper(),
              'o': draw(st.one_of(st.integers(0, 300), st.integers(16000, 17000), st.integers(0, 2 ** 30 - 1))),
@@ -210,6 +214,10 @@ class C06(Property):
                 value = text_of(case['text'])
                 expect_raise = code == 'IDENT' and len(value) > 255
         elif code == 'DTIME':
+            if case.get('tz_env'):
+                import os as _os, time as _time
+                _os.environ['TZ'] = case['tz_env']
+                _time.tzset()
             value = model.dec_datetime(case['dt'])
             utc = (value if value.tzinfo else value.astimezone()).astimezone(timezone.utc)
             expect_raise = not 1900 <= utc.year <= 2155
